@@ -64,6 +64,13 @@ pub struct Outcome {
     pub disk: Vec<Option<String>>,
     /// last editor text of a doc that was closed while it differed from disk
     pub dirty_closed: Vec<Option<String>>,
+    /// history index of the last didClose of each document
+    pub close_seq: Vec<Option<usize>>,
+    /// every didOpen/didChange/didClose sent, in order: (kind, doc); doc = usize::MAX for the probe document
+    pub doc_notifs: Vec<(char, usize)>,
+    /// per document: a reload's open-file re-sync certainly looked at the open-file state after
+    /// the server had handled the document's last didClose (derived from the lock trace)
+    pub close_reconciled_by_reload: Vec<bool>,
     pub uris: Vec<String>,
     pub root: PathBuf,
     /// probe ids
@@ -128,7 +135,11 @@ struct Client {
     faults_on: bool,
     cfg_version: u32,
     next_probe_id: i32,
+    /// a LoadWorkspace progress was created and the watcher re-registration that ends a reload has not been seen yet
+    reload_in_progress: bool,
+    register_seen: u32,
 }
+
 
 pub fn scratch_base() -> PathBuf {
     if let Ok(p) = std::env::var("VERIF_SCRATCH") {
@@ -271,6 +282,14 @@ impl Client {
                 }
                 Message::Request(req) => {
                     *self.out.server_request_methods.entry(req.method.clone()).or_insert(0) += 1;
+                    if req.method == "window/workDoneProgress/create" && req.params.get("token").and_then(|t| t.as_i64()) == Some(0) && self.register_seen >= 1 {
+                        self.reload_in_progress = true;
+                        self.count("probe.reload_observed_in_progress");
+                    }
+                    if req.method == "client/registerCapability" {
+                        self.register_seen += 1;
+                        self.reload_in_progress = false;
+                    }
                     // decide how (and when) the client answers
                     let base = self.spec.swarm.client_latency_ms;
                     let (mut due, mut how) = (t + base, 0u8);
@@ -432,6 +451,7 @@ impl Client {
                 }
                 self.out.editor[*doc] = Some(text.clone());
                 self.out.dirty_closed[*doc] = None;
+                self.out.doc_notifs.push(('o', *doc));
                 let uri = self.uri(*doc);
                 self.send(proto::notification(
                     "textDocument/didOpen",
@@ -442,6 +462,10 @@ impl Client {
                 if *doc >= self.paths.len() || self.out.editor[*doc].is_none() {
                     return;
                 }
+                if self.reload_in_progress {
+                    self.count("probe.change_sent_inside_reload_window");
+                }
+                self.out.doc_notifs.push(('c', *doc));
                 self.out.editor[*doc] = Some(text.clone());
                 let uri = self.uri(*doc);
                 self.send(proto::notification(
@@ -465,10 +489,18 @@ impl Client {
                 if *doc >= self.paths.len() || self.out.editor[*doc].is_none() {
                     return;
                 }
+                if self.reload_in_progress {
+                    self.count("probe.close_sent_inside_reload_window");
+                    if self.out.editor.iter().filter(|e| e.is_some()).count() == 1 {
+                        self.count("probe.last_open_doc_closed_inside_reload_window");
+                    }
+                }
                 let text = self.out.editor[*doc].take();
                 if text != self.out.disk[*doc] {
                     self.out.dirty_closed[*doc] = text;
                 }
+                self.out.close_seq[*doc] = Some(self.out.history.len());
+                self.out.doc_notifs.push(('x', *doc));
                 let uri = self.uri(*doc);
                 self.send(proto::notification("textDocument/didClose", json!({"textDocument": {"uri": uri}})));
             }
@@ -636,6 +668,7 @@ pub fn execute_opts(spec: &RunSpec, capture_sites: bool) -> Outcome {
     let rt = tokio::runtime::Builder::new_current_thread()
         .enable_time()
         .start_paused(true)
+        .event_interval(spec.sched.event_interval.max(1))
         .build()
         .expect("runtime");
 
@@ -649,6 +682,7 @@ pub fn execute_opts(spec: &RunSpec, capture_sites: bool) -> Outcome {
         editor: vec![None; spec.docs.len()],
         disk: spec.docs.iter().map(|d| d.on_disk.clone()).collect(),
         dirty_closed: vec![None; spec.docs.len()],
+        close_seq: vec![None; spec.docs.len()],
         uris: uris.clone(),
         root: root.clone(),
         init_id,
@@ -691,12 +725,14 @@ pub fn execute_opts(spec: &RunSpec, capture_sites: bool) -> Outcome {
     let spec2 = spec.clone();
     let rx = client_conn.receiver.clone();
     let client_sender_keepalive = client_conn.sender.clone();
+    let shared_for_ids = shared.clone();
     let outcome = rt.block_on(async move {
         let start = tokio::time::Instant::now();
         let server = tokio::spawn(async move {
             let r = emmylua_ls::run_ls(cmd_args).await;
             r.map_err(|e| e.to_string())
         });
+        shared_for_ids.borrow_mut().main_task_raw = server.id().to_string().parse::<u64>().unwrap_or(0);
         let client = tokio::spawn(async move {
             let fault_rng = Rng::stream(spec2.seed, "client-faults");
             let mut c = Client {
@@ -715,6 +751,8 @@ pub fn execute_opts(spec: &RunSpec, capture_sites: bool) -> Outcome {
                 faults_on: true,
                 cfg_version: 0,
                 next_probe_id: 50_000,
+                reload_in_progress: false,
+                register_seen: 0,
             };
             let fut = client_main(&mut c, server);
             match tokio::time::timeout(Duration::from_secs(3600), fut).await {
@@ -745,6 +783,7 @@ pub fn execute_opts(spec: &RunSpec, capture_sites: bool) -> Outcome {
         out.stall_class = s.stall_class();
         out.wait_graph = s.wait_for_graph();
     }
+    out.close_reconciled_by_reload = reconciled_closes(&shared.borrow(), &out);
     let frozen = shared.borrow().events.len();
     let frozen_digest = shared.borrow().digest.0;
     let frozen_lock_events = shared.borrow().stats.lock_events;
@@ -964,4 +1003,74 @@ pub fn quiet_stderr() {
             dup2(fd, 2);
         }
     }
+}
+
+
+/// For every document whose last notification was a didClose: did some workspace reload's
+/// open-file re-sync read the open-file state *after* the main loop had applied that close?
+/// Derived from the lock trace: the i-th didOpen/didChange/didClose the client sent is applied by
+/// the i-th `WorkspaceManager` write acquisition of the main-loop task; a reload task is the task
+/// holding the reload mutex (`Mutex<()>`), whose `WorkspaceManager` acquisitions are
+/// W (snapshot), R.. (re-sync loop), R, W (watch registration).
+fn reconciled_closes(s: &Shared, out: &Outcome) -> Vec<bool> {
+    use tokio::verif_seam::LockOp;
+    let n = out.editor.len();
+    let mut res = vec![false; n];
+    let (Some(main), Some(wm), Some(rl)) = (s.main_task(), s.lock_named("WorkspaceManager"), s.lock_named("()")) else {
+        return res;
+    };
+    // event index of the i-th WM.W acquisition by the main task
+    let mut main_w: Vec<usize> = Vec::new();
+    // reload episodes: for each task, WM events while holding the reload mutex
+    let mut holding_rl: std::collections::BTreeMap<usize, Vec<(usize, crate::controller::Mode)>> = Default::default();
+    let mut last_sync_reads: Vec<(usize, usize)> = Vec::new();
+    for (i, e) in s.events.iter().enumerate() {
+        if e.op != LockOp::Acquired && !(e.op == LockOp::Released && e.lock == rl) {
+            continue;
+        }
+        if e.lock == rl {
+            match e.op {
+                LockOp::Acquired => {
+                    holding_rl.insert(e.task, Vec::new());
+                }
+                LockOp::Released => {
+                    if let Some(evs) = holding_rl.remove(&e.task) {
+                        // W, R.., R, W  -> the re-sync reads are the R's except the last one
+                        let reads: Vec<usize> = evs.iter().filter(|(_, m)| *m == crate::controller::Mode::R).map(|(i, _)| *i).collect();
+                        let ends_with_registration = evs.len() >= 3
+                            && evs[evs.len() - 1].1 == crate::controller::Mode::W
+                            && evs[evs.len() - 2].1 == crate::controller::Mode::R;
+                        if ends_with_registration && reads.len() >= 2 && evs[0].1 == crate::controller::Mode::W {
+                            // (snapshot taken at, last re-sync read at)
+                            last_sync_reads.push((evs[0].0, reads[reads.len() - 2]));
+                        }
+                    }
+                }
+                _ => {}
+            }
+            continue;
+        }
+        if e.lock == wm {
+            if e.task == main && e.mode == crate::controller::Mode::W {
+                main_w.push(i);
+            }
+            if let Some(v) = holding_rl.get_mut(&e.task) {
+                v.push((i, e.mode));
+            }
+        }
+    }
+    for d in 0..n {
+        // index (in doc_notifs) of the last notification of d, if it is a close
+        let Some(k) = out.doc_notifs.iter().rposition(|(_, dd)| *dd == d) else { continue };
+        if out.doc_notifs[k].0 != 'x' {
+            continue;
+        }
+        let Some(closed_at) = main_w.get(k) else { continue };
+        // the didOpen this close belongs to: the document must have been open when the reload took
+        // its snapshot (or already closed again), otherwise the reload never knew about it
+        let Some(j) = out.doc_notifs[..k].iter().rposition(|(kind, dd)| *dd == d && *kind == 'o') else { continue };
+        let Some(opened_at) = main_w.get(j) else { continue };
+        res[d] = last_sync_reads.iter().any(|(snapshot, last_read)| opened_at < snapshot && closed_at < last_read);
+    }
+    res
 }
